@@ -29,3 +29,19 @@ check("C11", "exploration",
       "By-construction and differential monitor: arbitrary encoded messages are turned into real RSA signatures with libcrypto BN (so every EM variant is a genuine signature), ECDSA/Ed25519/PSS verdicts are compared with an independent range check + libcrypto, sign/verify, encrypt/decrypt and ECDH/DH/X25519 are cross-checked both ways, invalid public values must be refused; ~28k (quick) / 3M (thorough) cases on ASan+UBSan and production builds, every input in an exact-size heap block.",
       "Trusts OpenSSL 3.0 libcrypto; (r, n-s) malleability and absent-NULL DigestInfo are recorded, not asserted; key sizes limited to those pstm_exptmod supports.",
       "by-construction oracle + differential monitor vs libcrypto, sanitizer and production builds", "3/C11")
+check("C07", "exploration",
+      "Reference-model monitor over ~1.7k (quick) configuration pairs and hello rewrites per seed: exhaustive TLS/DTLS version-set pairs, every single suite per version (enabled / disabled on the server), random suite lists, TLS 1.3 group and sigalg subsets, EMS pairs, fallback SCSV for every version pair, and man-in-the-middle rewrites of every ClientHello/ServerHello field; both endpoints must agree, negotiate the highest common version, stay inside both configurations, exchange data, and never complete after tampering.",
+      "Completeness asserted only for default lists; DTLS version sets limited to those the API can express ({1.0}, {1.0,1.2}).",
+      "reference-model monitor (negotiation function) + MITM rewrite oracle on fork-cloned handshakes, ASan+UBSan build", "3/C07")
+check("C09", "exploration",
+      "Coverage-guided libFuzzer (clang ASan+UBSan+LSan) over 38 parser entry points with an ASN.1/PEM structure-aware mutator, exact-size input buffers and a consistency walker over every successfully parsed object; quick replays the committed corpus and adds ~15k mutations per target (475k executions), thorough ~1M per target plus a valgrind memcheck replay of the corpus on the production build.",
+      "Coverage-guided, not exhaustive; the PBE iteration cap (100000) is a policy choice of fix commit 'bound the PBE iteration count'.",
+      "sanitizer-instrumented coverage-guided fuzzing + structural consistency walker", "3/C09")
+check("C10", "exploration",
+      "In-process interoperability with OpenSSL 3.0 (both role assignments) over memory/datagram BIOs: ~400 (quick) / 20k (thorough) mutually supported configurations of version, suite, group (incl. HelloRetryRequest), certificate type, client auth, PSK, EMS, session-id / ticket / TLS 1.3 PSK resumption, payload sizes 1..200000 with re-chunked delivery; both stacks must complete, agree on parameters, round-trip data bit-exactly and resume.",
+      "Conformance = agreement with one independent implementation; OpenSSL policy knobs opened (security level 0, legacy server connect); combinations OpenSSL cannot do are counted as not mutually supported.",
+      "differential monitor against an independent TLS stack (OpenSSL) in one process, ASan+UBSan build", "3/C10")
+check("C14", "exploration",
+      "Sequential-model history checker: 466 (quick) / 20k (thorough) seeded histories of full / resumed (id, ticket, TLS 1.3 PSK) handshakes, clock advances around both lifetimes, fatal alerts, closes, cache overflow, ticket-key rotation and forged / truncated / edited / foreign / replayed / in-progress credentials; the server's resumption decision is observed at ServerHello and must be justified by the model (issued, unexpired, not invalidated, same version/suite/EMS, same secret).",
+      "The converse (valid credential must resume) only in quiet positive controls; stateless tickets are not invalidated by alerts.",
+      "offline history checker against a sequential session-store model, fork-per-history, ASan+UBSan build", "3/C14")
